@@ -1,8 +1,68 @@
 import Solvor.Common.Proto
 import Solvor.Mst.Model
-/-! Mst: line-protocol handler. One request line in, one reply line out. -/
-namespace Solvor.Mst
+/-! Mst: line-protocol handler.
 
-def handle (line : String) : String := "unimplemented " ++ line
+request `["kruskal", n, edges, allowForest, implSol|null]`
+  edges   : list of `[u, v, w]` (weights scaled to integers by the harness)
+  implSol : the edge list returned by the implementation (same encoding) or `null`
+reply `[status, sol|null, obj|null, iters, ufSame, connected, comps, brute|null, valid, implChk]`
+  status/sol/obj/iters : the mirror `kruskal`
+  ufSame    : the parent/rank mirror `kruskalUF` returned the same `Result`
+  connected : verified `connectedB n edges`
+  comps     : number of components of the input
+  brute     : `mstBrute` (bounded oracle) when `edges.length ≤ 12`, else `null`
+  valid     : `n ≥ 1` and endpoints `< n`
+  implChk   : `null` or `[subset, tree, forest, cert, weight]` – the verified checkers
+              `subsetB`, `chkSpanningTree`, `chkSpanningForest`, `chkMinCert` and `weight`
+              evaluated on the implementation's edge list
+
+request `["prim", adj, start, implSol|null]`
+  adj : per node (dict-key order) the list of `[neighbour, w]`
+reply: same layout (`ufSame` is `true`, the edge list of the input is `arcs adj`).
+-/
+namespace Solvor.Mst
+open Solvor.Proto
+
+def toEdge? : List Int → Option Edge
+  | [u, v, w] => if u < 0 || v < 0 then none else some ⟨u.toNat, v.toNat, w⟩
+  | _ => none
+
+def toEdges? (v : Val) : Option (List Edge) := do (← v.toIntss?).mapM toEdge?
+
+def toNbr? : List Int → Option (Nat × Int)
+  | [v, w] => if v < 0 then none else some (v.toNat, w)
+  | _ => none
+
+def toAdj? (v : Val) : Option Adj := do
+  (← v.toArr?).mapM fun row => do (← row.toIntss?).mapM toNbr?
+
+def ofEdge (e : Edge) : Val := Val.arr [Val.int e.u, Val.int e.v, Val.int e.w]
+def ofEdges (es : List Edge) : Val := Val.arr (es.map ofEdge)
+
+def implChk (n : Nat) (E : List Edge) : Option (List Edge) → Val
+  | none => Val.null
+  | some T => Val.arr [Val.bool (subsetB T E), Val.bool (chkSpanningTree n E T),
+      Val.bool (chkSpanningForest E T), Val.bool (chkMinCert E T), Val.int (weight T)]
+
+def reply (r : Result) (ufSame : Bool) (n : Nat) (E : List Edge) (impl : Option (List Edge)) : String :=
+  (Val.arr [Val.str r.status.name, Val.ofOpt ofEdges r.sol, Val.ofOpt Val.int r.obj, Val.int r.iters,
+    Val.bool ufSame, Val.bool (connectedB n E), Val.int (compCount n E),
+    (if E.length ≤ 12 then Val.ofOpt Val.int (mstBrute n E) else Val.null),
+    Val.bool (decide (0 < n) && validB n E), implChk n E impl]).render
+
+def handle (line : String) : String :=
+  match request line with
+  | some ("kruskal", [n, edges, af, impl]) =>
+    match n.toNat?, toEdges? edges, af.toBool?, impl.toOpt? toEdges? with
+    | some n, some E, some af, some impl =>
+      let r := kruskal n E af
+      reply r (decide (kruskalUF n E af = r)) n E impl
+    | _, _, _, _ => err "bad arguments"
+  | some ("prim", [adj, start, impl]) =>
+    match toAdj? adj, start.toNat?, impl.toOpt? toEdges? with
+    | some adj, some start, some impl =>
+      reply (prim adj start) true adj.length (arcs adj) impl
+    | _, _, _ => err "bad arguments"
+  | _ => err "bad request"
 
 end Solvor.Mst
